@@ -5,14 +5,15 @@ hemisphere / false-origin rules, exactness on the central meridian and the equat
 projection-scaling and ellipsoid-homothety laws, argument types; see level_note for what is not decided).
 """
 import json
+import math
 import random
 
 from harness import gridlib, tlc
 
 FAMILY = {
-    "C01": ("c01_", ("P", "PAIR", "ZONE")),
-    "C02": ("c02_", ("P", "IRT", "STA")),
-    "C10": ("c10_", ("P", "PAIR", "IRT")),
+    "C01": ("c01_", ("P", "PAIR", "ZONE", "CM")),
+    "C02": ("c02_", ("P", "IRT", "STA", "CM")),
+    "C10": ("c10_", ("P", "PAIR", "IRT", "CM")),
 }
 
 
@@ -57,6 +58,23 @@ def build(world, strata, prop, quick, rnd):
                     if s["prj"] == "utm":
                         clone = ("utmclone", gc.Projection(500000, 10000000, 0.9996, 6, -177))
                         evs.append(world.pair_event("same_call", (lat, lon, zonearg, ell, prj), (lat, lon, zonearg, ell, clone), tag))
+    if "CM" in kinds:
+        # central meridian at Pythagorean latitudes inside the band: exact meridian-arc oracle
+        tris = [(3, 4, 5), (4, 3, 5), (5, 12, 13), (12, 5, 13), (8, 15, 17), (15, 8, 17), (7, 24, 25), (24, 7, 25), (20, 21, 29),
+                (21, 20, 29), (9, 40, 41), (40, 9, 41), (12, 35, 37), (35, 12, 37), (11, 60, 61), (0, 1, 1)]
+        tris = [t for t in tris if -80 <= math.degrees(math.atan2(t[0], t[1])) <= 84]
+        tris += [(-p, q, r) for (p, q, r) in tris if p and math.degrees(math.atan2(p, q)) <= 80]
+        ells = ["grs80", "wgs84", "ans", "intl24", "rand", "rand"] if not quick else ["grs80", "ans", "intl24", "rand"]
+        for i, t in enumerate(tris):
+            for j, en in enumerate(ells):
+                ell = world.get_ell(en)
+                if (i + j) % 4 == 3:
+                    code = [541, 552, 563, 572][(i + j) % 4]
+                    if abs(math.degrees(math.atan2(t[0], t[1]))) <= 44:
+                        evs.append(world.cm_event(t, code, ell, ("isg", gc.isg), "cm"))
+                        continue
+                prj = ("utm", gc.utm) if (i + j) % 3 else world.rand_prj()
+                evs.append(world.cm_event(t, [1, 17, 30, 31, 55, 60][(i + j) % 6], ell, prj, "cm"))
     if "ZONE" in kinds:
         step = 7 if quick else 1
         for pr in (("utm", gc.utm), ("zw8", gc.Projection(500000, 10000000, 0.9996, 8, -176))):
@@ -112,14 +130,16 @@ def run_family(ctx, prop):
     for (i, l, clause) in fails:
         ev = traces[i]["ev"][0]
         mine = clause.startswith(prefix) or clause.startswith("stuck") or \
-            (clause.endswith("_raised") and ((prop == "C01" and ev["k"] in ("P", "PAIR", "ZONE")) or (prop == "C02" and ev["k"] in ("IRT", "STA"))))
+            (clause.endswith("_raised") and ((prop == "C01" and ev["k"] in ("P", "PAIR", "ZONE", "CM")) or (prop == "C02" and ev["k"] in ("IRT", "STA"))))
         if not mine:
             other[clause] = other.get(clause, 0) + 1
             continue
         desc = {"clause": clause, "kind": ev["k"]}
         if ev["k"] == "PAIR":
             desc["rel"] = ev["rel"]
-        if ev["k"] in ("P", "IRT"):
+        if clause == "oracle_start_value":
+            raise tlc.MachineryError("Newton start value for the third flattening did not verify")
+        if ev["k"] in ("P", "IRT", "CM"):
             desc["prj"] = ev["o"].get("prj", {}).get("name")
         if clause == "c02_closure_geo_lon_literal":
             # literal 2e-9 deg clause: inside the documented output-rounding envelope iff the envelope clause holds
